@@ -213,6 +213,80 @@ void h_next_run(void) {
 }
 #endif
 
+#ifdef HARNESS_h_segment_alloc_commit
+/* C13/C07: call-site contract of mi_segment_alloc -> mi_segment_os_alloc: a huge segment (required > 0) is always requested
+   committed (huge segments have no commit mask: mi_segment_commit is a no-op for them), whatever the eager-commit options */
+static int n_os_alloc2; static bool os_commit_flag; static size_t os_required;
+mi_segment_t* stub_segment_os_alloc(size_t required, size_t page_alignment, bool eager_delayed, mi_arena_id_t req_arena_id, size_t* psegment_slices, size_t* pinfo_slices, bool commit, mi_segments_tld_t* tld) {
+  n_os_alloc2++; os_commit_flag = commit; os_required = required; return NULL;      /* the OS refuses: only the request matters here */
+}
+bool _mi_os_has_overcommit(void) { return nd_bool(); }
+size_t _mi_current_thread_count(void) { return nd_size() % 4; }
+void h_segment_alloc_commit(void) {
+  static mi_segments_tld_t stld; static mi_page_t* hp;
+  size_t required = nd_size(); ASSUME(required <= ((size_t)1 << 40));
+  size_t align = (required > 0 && nd_bool()) ? MI_SEGMENT_SIZE * (1 + nd_u8() % 4) : 0;
+  stld.count = nd_size() % 4; 
+  mi_segment_t* s = mi_segment_alloc(required, align, (mi_arena_id_t)0, &stld, &hp);
+  CHECK(s == NULL && n_os_alloc2 == 1 && os_required == required, "the request reaches the OS layer once");
+  if (required > 0) { CHECK(os_commit_flag, "C13: huge segments are always allocated committed (they cannot be committed on demand)"); WITNESS("huge"); }
+  else WITNESS("normal");
+}
+#endif
+
+#ifdef HARNESS_h_segment_reclaim
+/* C09/C08: mi_segment_reclaim on a concrete slice layout (info slice, page of 1 slice, page of 2 slices; page fields
+   symbolic): ownership is taken, every used page is re-associated with a heap of the caller and delayed freeing is
+   re-enabled, all-free pages are cleared, an empty segment is freed exactly once */
+static mi_segment_t RSEG;          /* header only: the data area is never touched by the reclaim logic */
+static mi_heap_t TH; static mi_tld_t TT; static mi_stats_t TS;
+static int n_page_reclaim, n_page_clear, n_seg_free2, n_coalesce; static mi_page_t* reclaimed_pg[2];
+mi_heap_t* _mi_heap_by_tag(mi_heap_t* heap, uint8_t tag) { return &TH; }
+void _mi_page_reclaim(mi_heap_t* heap, mi_page_t* page) { CHECK(heap == &TH, "pages are reclaimed into a heap of the calling thread"); if (n_page_reclaim < 2) reclaimed_pg[n_page_reclaim] = page; n_page_reclaim++; }
+void _mi_page_free_collect(mi_page_t* page, bool force) { }
+mi_slice_t* stub_page_clear(mi_page_t* page, mi_segments_tld_t* tld) { n_page_clear++; RSEG.used--; return (mi_slice_t*)page; }
+mi_slice_t* stub_span_free_coalesce(mi_slice_t* slice, mi_segments_tld_t* tld) { n_coalesce++; return slice; }
+void stub_segment_free(mi_segment_t* segment, bool force, mi_segments_tld_t* tld) { n_seg_free2++; }
+void _mi_page_use_delayed_free(mi_page_t* page, mi_delayed_t delay, bool override_never) {     /* sequential model of the flag update (the real CAS loop is decided in C02/C10) */
+  uintptr_t t = page->xthread_free; uintptr_t old = t & 3;
+  if (old == MI_NEVER_DELAYED_FREE && !override_never) return;
+  page->xthread_free = (t & ~(uintptr_t)3) | (uintptr_t)delay;
+}
+mi_threadid_t _mi_thread_id(void) mi_attr_noexcept { return 0x4242; }
+void h_segment_reclaim(void) {
+  mi_segment_t* seg = &RSEG;
+  seg->slice_entries = 4; seg->segment_slices = 4; seg->segment_info_slices = 1; seg->kind = MI_SEGMENT_NORMAL;
+  seg->thread_id = 0; seg->subproc = NULL; TH.tld = &TT; TT.segments.subproc = NULL; TT.segments.stats = &TS; TT.stats = TS;
+  seg->slices[0].slice_count = 1; seg->slices[0].slice_offset = 0; seg->slices[0].block_size = 1;
+  mi_page_t* p1 = (mi_page_t*)&seg->slices[1]; mi_page_t* p2 = (mi_page_t*)&seg->slices[2];
+  p1->slice_count = 1; p1->slice_offset = 0; p2->slice_count = 2; p2->slice_offset = 0; seg->slices[3].slice_offset = sizeof(mi_slice_t); seg->slices[3].slice_count = 0;
+  bool u1 = nd_bool(), u2 = nd_bool(); ASSUME(u1 || u2);
+  p1->block_size = u1 ? 64 : 0; p2->block_size = u2 ? 1024 : 0;           /* block_size > 0 <=> the span is a used page */
+  p1->capacity = p1->reserved = 4; p2->capacity = p2->reserved = 4; p1->is_committed = p2->is_committed = 1;
+  p1->used = u1 ? (uint16_t)(nd_u8() % 5) : 0; p2->used = u2 ? (uint16_t)(nd_u8() % 5) : 0;
+  p1->xthread_free = MI_NEVER_DELAYED_FREE; p2->xthread_free = MI_NEVER_DELAYED_FREE;    /* abandoned pages carry NEVER_DELAYED_FREE */
+  p1->xheap = 0; p2->xheap = 0; p1->heap_tag = p2->heap_tag = 0;
+  seg->used = (u1 ? 1 : 0) + (u2 ? 1 : 0); seg->abandoned = seg->used;
+  size_t used0 = seg->used;
+  bool right = false;
+  mi_segment_t* r = mi_segment_reclaim(seg, &TH, 64, &right, &TT.segments);
+  CHECK(seg->thread_id == _mi_thread_id(), "C09: the adopting thread becomes the owner of the segment");
+  CHECK(seg->abandoned == 0, "no page stays abandoned");
+  mi_page_t* pg[2] = { p1, p2 }; bool us[2] = { u1, u2 };
+  size_t cleared = 0, kept = 0;
+  for (int i = 0; i < 2; i++) if (us[i]) {
+    CHECK((mi_heap_t*)pg[i]->xheap == &TH, "C09: every used page is re-associated with a heap of the adopting thread");
+    CHECK((pg[i]->xthread_free & 3) == MI_USE_DELAYED_FREE, "C08/C09: delayed freeing is re-enabled on adopted pages (remote frees into a full adopted page are noticed again)");
+    if (pg[i]->used == 0) cleared++; else kept++;
+  }
+  CHECK(n_page_clear == (int)cleared && n_page_reclaim == (int)kept, "C09: all-free pages are released, the others are put into the heap's queues exactly once");
+  CHECK(n_coalesce == (int)(2 - used0), "free spans are returned to the span queues");
+  if (cleared == used0) { CHECK(r == NULL && n_seg_free2 == 1, "C09: a segment whose last block was freed is released instead of leaked (exactly once)"); WITNESS("freed"); }
+  else { CHECK(r == seg && n_seg_free2 == 0, "a segment with live pages is kept"); WITNESS("kept"); }
+  if (right) CHECK(u1 && p1->used < p1->capacity && p1->used > 0, "right_page only for a reclaimed page of the requested size with free space");
+}
+#endif
+
 /* ================================================================== C15 / C09: reclaim decision logic ==== */
 #if defined(HARNESS_h_try_reclaim) || defined(HARNESS_h_reclaim_all) || defined(HARNESS_h_attempt_reclaim) || defined(HARNESS_h_abandoned_collect)
 /* The decision logic of segment.c that adopts abandoned segments runs for real; the cursor over abandoned segments, the
